@@ -31,15 +31,78 @@ def nontrivial(c, o):
     return nb >= 2 and any(op[0] != "calibrate" for op in c["ops"])
 
 
+class ExtremeLoss:
+    """A loss returning extreme but finite values (models with extreme outputs), scripted by call index."""
+
+    def __init__(self, values):
+        self.values, self.k = list(values), 0
+
+    def compute_loss(self, sim, real):
+        v = self.values[self.k % len(self.values)]
+        self.k += 1
+        return v
+
+
+def extreme_runs(chk, stats):
+    """Rows once recorded never change - with the REAL built-in samplers reading a history that holds extreme losses."""
+    import contextlib
+    import io
+
+    import numpy as np
+    from black_it.calibrator import Calibrator
+
+    from props import real_lineups as rl
+
+    rng = chk.rng
+    n = 0
+    kinds_all = ["xgb", "rf", "bestbatch", "pso", "cors", "gp"]
+    for li in range(6 if chk.tier == "quick" else 36):
+        kinds = [("halton", 3), (kinds_all[(li // 3) % len(kinds_all)], 2), (rng.choice(kinds_all[:5]), 2)]
+        mode = li % 3          # which side of the float32 range the history exceeds: only below, only above, both
+        vals = {0: [1.0, -1e39, float("-inf"), 2.5, -3.5e38, 0.25, -1e300],
+                1: [1.0, 1e39, 3.5e38, 2.5, 1e300, 0.25, float("inf")],
+                2: [1.0, 1e39, -1e39, 3.5e38, 2.5, 1e300, 0.25, -3.5e38]}[mode]
+        stats[f"extreme:mode{mode}"] += 1
+        rng.shuffle(vals)
+        samplers = [rl.make_sampler(k, bs, 5) for k, bs in kinds]
+        with contextlib.redirect_stdout(io.StringIO()):
+            cal = Calibrator(loss_function=ExtremeLoss(vals), real_data=np.zeros((6, 1)), model=lambda th, N, seed: np.full((N, 1), float(th[0]) * 1e200),
+                             parameters_bounds=[[0.0, -1.0], [1.0, 1.0]], parameters_precision=[0.01, 0.01], ensemble_size=1,
+                             samplers=samplers, verbose=False, random_state=rng.below(2**31), n_jobs=1)
+        prev = None
+        for b in range(6):
+            with contextlib.redirect_stdout(io.StringIO()), np.errstate(all="ignore"):
+                try:
+                    cal.calibrate(1)
+                except Exception as e:  # noqa: BLE001  a surrogate may legitimately refuse such a history
+                    stats[f"extreme:raised:{type(e).__name__}"] += 1
+            snap = {"params": cal.params_samp.copy(), "losses": cal.losses_samp.copy(), "series": cal.series_samp.copy(),
+                    "bnums": cal.batch_num_samp.copy(), "methods": cal.method_samp.copy()}
+            n += 1
+            stats["extreme:batches"] += 1
+            if prev is not None:
+                for key, old in prev.items():
+                    if snap[key][: len(old)].tobytes() != old.tobytes():
+                        chk.violation({"kind": "oracle", "clause": "append-only", "with": "real-samplers"},
+                                      {"failed": "oracle:append-only", "detail": f"line-up {kinds}: {key} rows changed after batch {b} "
+                                       f"(losses script {vals})", "case": {"extreme": {"kinds": kinds, "vals": vals}}})
+            prev = snap
+    return n
+
+
 def run(chk, replay=None):
     chk.proof_gate()
     if replay:
         cases = [json.loads(open(replay).read())["case"]]
+        if "extreme" in cases[0]:
+            cases = []
     else:
         cases = gen_cases(chk)
     obs, bad, stats, keys, nontriv = cf.run_traces(chk, cases, cf.oracle_c02, nontrivial, label="C02")
+    n_ext = extreme_runs(chk, stats)
     cov = {
-        "evaluations": len(cases), "distinct": len(keys), "distinct_nontrivial": len(nontriv),
+        "evaluations": len(cases) + n_ext, "distinct": len(keys), "distinct_nontrivial": len(nontriv),
+        "extreme_value_batches_with_real_samplers": n_ext,
         "rule": "random operation sequences {calibrate(n), create_checkpoint, restore, set_samplers, set_scheduler} on the real "
                 "Calibrator with token samplers/model/loss (1-6 samplers, batch sizes 1-4, ensemble 1-3, RR and RL schedulers, some "
                 "with an injected fault) plus the ensemble(1-4) x batch-size(1-5) grid; non-trivial = at least 2 batches and one "
